@@ -1,11 +1,11 @@
 SPECIFICATION Spec
 CONSTANTS
-  Ls = {4}
-  Family = "edit"
-  Chunk = 40
+  Mode = "strings"
+  L = 4
+  Batch = 500
   Stride = 1
   Offset = 0
-  MaxGuest = 2
+  MaxTok = 4
   Devs = {"RgPt", "BwRev", "BwOrigin", "WrapSlice"}
 
 CHECK_DEADLOCK FALSE
